@@ -75,6 +75,19 @@ func genC01(tier string, seed uint64, emit func(string)) {
 		emit("rt " + (&Node{Kind: 'b', P: p}).String())
 		emit("rt " + (&Node{Kind: 'a', Es: []*Node{{Kind: 'b', P: p}, {Kind: 'i', P: []byte("7")}}}).String())
 	}
+	// long line payloads (status / error / integer lines are not limited in length; sizes around the line and read
+	// buffer sizes an implementation may use), alone and followed by further values
+	for _, sz := range paySizes {
+		p := bytes.Repeat([]byte{'q'}, sz)
+		p[sz/2] = 0xc3
+		p[sz-1] = '$'
+		for _, k := range []byte{'s', 'e'} {
+			emit("rt " + (&Node{Kind: k, P: p}).String())
+			emit("rt " + (&Node{Kind: 'a', Es: []*Node{{Kind: k, P: p}, {Kind: 'i', P: []byte("7")}, {Kind: 'b', P: []byte("z")}}}).String())
+		}
+		d := bytes.Repeat([]byte{'7'}, sz)
+		emit("rt " + (&Node{Kind: 'a', Es: []*Node{{Kind: 'i', P: d}, {Kind: 's', P: []byte("OK")}}}).String())
+	}
 	// constructors
 	for _, v := range boundaryInts {
 		emit("ctor int " + strconv.FormatInt(v, 10))
